@@ -122,6 +122,21 @@ theorem step_keys_at (s : Sys F) (e : Ev) (hnr : e.isReload = false) (hli : All 
   obtain ⟨-, kops, hk1, hk2⟩ := keys_run hr (hli _ (List.getElem_mem hj))
   exact ⟨_, hl0, (connId_run hr).symm, kops, hk1, hk2⟩
 
+/-- Freshness along a run is freshness along every prefix. -/
+theorem freshRun_take (s : Sys F) (evs : List Ev) (k : Nat) (hf : FreshRun s evs) : FreshRun s (evs.take k) := by
+  induction evs generalizing s k with
+  | nil => rw [List.take_nil]; trivial
+  | cons e es ih =>
+    cases k with
+    | zero => trivial
+    | succ k => exact ⟨hf.1, ih _ k hf.2⟩
+
+/-- **Conn ids are pairwise distinct in EVERY state along a run with reloads** (`Inv` + `FreshRun`): "the link with
+conn id `c`" is unambiguous at every moment of the run. -/
+theorem ids_nodup_along (s : Sys F) (hI : Inv s) (evs : List Ev) (hf : FreshRun s evs) (k : Nat) :
+    (ids (run s (evs.take k)).1.links).Nodup :=
+  (Inv_run_reload s hI (evs.take k) (freshRun_take s evs k hf)).nodup
+
 /-- The set of a freshly created link is empty. -/
 theorem keys_newUplink (id a now : Nat) : (FLink.newUplink id a now : FLink F).core.keys = [] := rfl
 
